@@ -101,6 +101,8 @@ class Relational:
             fa = facts
             if self.edge_fx:
                 adds = self.edge_fx(b, si, atom, holds, facts)
+                if adds == "INFEASIBLE":
+                    continue            # the rule knows that this path state cannot take the edge (the same test was decided the other way)
                 if adds:
                     fa = frozenset(set(facts) | set(adds))
             out.add((fa, flags))
